@@ -95,6 +95,19 @@ fn forged(w: &mut World) {
             }
         }
     }
+    // refusing forgeries must not cost the genuine keys their registration
+    if let Ok(m) = wire::WMsk::decode(&ser(&w.msk)) {
+        for k in 0..w.usks.len() {
+            if !w.usks[k].known {
+                continue;
+            }
+            if let Ok(u) = WUsk::decode(&ser(&w.usks[k].usk)) {
+                if !m.users.contains(&u.id) {
+                    w.fail("C17.a", format!("after refusing forged keys, the id of the genuine key {k} is no longer registered in the master key"));
+                }
+            }
+        }
+    }
 }
 
 /// A key issued by another master key over the same structure must be refused.
